@@ -43,7 +43,7 @@ import sys, json, warnings, io, contextlib
 sys.path.insert(0, %r)
 import numpy as np
 warnings.simplefilter("ignore")
-from causationentropy.core.discovery import discover_network
+from causationentropy import discover_network          # (the fresh process uses the top-level public name)
 spec = json.loads(sys.stdin.read())
 out = []
 for s in spec:
@@ -56,8 +56,8 @@ print(json.dumps(out))
 
 
 def check(run, driver):
-    from causationentropy.core.discovery import discover_network
-
+    from common import EntryPoints
+    discover_network = EntryPoints("discover_network", "causationentropy.core.discovery", "causationentropy.core", "causationentropy")   # every public path, in turn
     run.rule = (
         "(i) the generator actually used is observed through a shim on discovery.np: seed, and the recorded permutation stream must equal the "
         "stream of a fresh default_rng(42) consumed in the same order; (ii) histories of 3..8 calls mixing the probe call with calls on other "
